@@ -37,16 +37,27 @@ Fixpoint run_passes (ps : list Z) (nl : netlist) : netlist * bool :=
   | p :: r => let '(nl', ok) := run_passes r (run_pass p nl) in (nl', pre_pass p nl && ok)
   end.
 
-(* row 0: [pre; post(last pass); sanity_block; #wires; #nets]; then the wires,
-   the nets, and spec_case of the model's result *)
+(* spec_case without its wfb row (wfb is quadratic with a large constant):
+   final memory probes, then one row per cycle (all wires, in `wires` order) *)
+Definition ref_case (nl : netlist) (dflt : Z) (regmap : list (Z * Z))
+    (memmap : list (Z * list (Z * Z))) (inss : list (list (Z * Z)))
+    (probes : list (Z * Z)) : list (list Z) :=
+  let ins := map ins_of inss in
+  let '(vs, st) := run nl dflt (init_state nl dflt regmap memmap) ins in
+  map (fun p => smems st (fst p) (snd p)) probes :: map (probe nl) vs.
+
+(* row 0: [pre; post(last pass); sanity_block; #wires; #nets; wfb (2 = not
+   evaluated: more than 120 nets)]; then the wires, the nets, and ref_case of
+   the model's result *)
 Definition c09_case (ps : list Z) (nl : netlist) (dflt : Z) (regmap : list (Z * Z))
     (memmap : list (Z * list (Z * Z))) (inss : list (list (Z * Z)))
     (probes : list (Z * Z)) : list (list Z) :=
   let '(nl', pre) := run_passes ps nl in
   [b2z pre; b2z (post_pass (last ps 0) nl'); b2z (sanity_block nl');
-   Z.of_nat (length (wires nl')); Z.of_nat (length (nets nl'))]
+   Z.of_nat (length (wires nl')); Z.of_nat (length (nets nl'));
+   if (length (nets nl') <=? 120)%nat then b2z (wfb nl') else 2]
   :: map enc_wire (wires nl') ++ map enc_net (nets nl')
-  ++ spec_case nl' dflt regmap memmap inss probes.
+  ++ ref_case nl' dflt regmap memmap inss probes.
 
 (* first element: [sanity_block nl] :: spec_case of the ORIGINAL design *)
 Definition c09_multi (pss : list (list Z)) (nl : netlist) (dflt : Z) (regmap : list (Z * Z))
